@@ -88,6 +88,8 @@ def bfs(seed_hists, gen_ops, depth, health=True, max_states=None, keep=None):
                 h2 = h + [op]
                 try:
                     w = build(h2)
+                except env.HarnessError:
+                    raise
                 except Exception:  # noqa  (an op that raises produces no state; C09 looks at those)
                     pool.transitions += 1
                     continue
